@@ -1,6 +1,7 @@
 """G-E (integer part): integer expression pairs for C17.
 AST: ('v',name) ('n',int) ('neg',e) ('+',a,b) ('-',a,b) ('*',a,b) ('/',a,b) ('pow',a,n)
-('mod',a,b) ('min',a,b) ('max',a,b) ('arr',name,e)"""
+('mod',a,b) ('min',a,b) ('max',a,b) ('arr',name,e) ('sarr',e1,e2,e3) = c(e1,e2)%w(e3), an array component
+of an element of a rank-2 array of structures"""
 import itertools
 import random
 
@@ -23,6 +24,8 @@ def txt(e):
         return f"{k}({txt(e[1])}, {txt(e[2])})"
     if k == "arr":
         return f"{e[1]}({txt(e[2])})"
+    if k == "sarr":
+        return f"c({txt(e[1])}, {txt(e[2])})%w({txt(e[3])})"
     raise ValueError(k)
 
 
@@ -114,7 +117,7 @@ def gen_pairs(tier, seed):
     nrand = 30 if tier == "quick" else 900
     bases = []
     # exhaustive small bases
-    leaves = [V("i"), V("n"), N(2), ("arr", "a", V("i"))]
+    leaves = [V("i"), V("n"), N(2), ("arr", "a", V("i")), ("sarr", V("i"), V("j"), V("n"))]
     for op in ["+", "-", "*", "/"]:
         for a, b in itertools.product(leaves, leaves):
             if op == "/" and b[0] != "n":
@@ -123,6 +126,10 @@ def gen_pairs(tier, seed):
     for d in depth_list:
         for _ in range(nrand):
             bases.append(rand_expr(rnd, d))
+    # structure accesses with several indices per component inside sums and products
+    S1, S2 = ("sarr", V("i"), V("j"), V("m")), ("sarr", V("j"), ("+", V("i"), N(1)), V("n"))
+    bases += [("*", ("+", S1, V("n")), V("m")), ("+", ("*", N(2), S1), ("*", V("i"), S2)), ("-", S2, ("*", S1, ("+", V("n"), N(1)))),
+              ("*", ("+", V("i"), N(1)), ("+", S1, S2))]
     seen = set()
     for b in bases:
         for nm, e2 in rewrites(b, rnd):
